@@ -1,2 +1,372 @@
-(* function-level commands (mirrored core algorithms); filled in as models are added *)
-let handle (_toks : string list) : string option = None
+(* Function-level commands of the E-core engine: parse the pipe syntax, call the extracted
+   mirrors (CoreGlue: FreeH, KEYLEN = 256) and print their outcome.  No decision is taken here.
+
+   Syntax (one token = no blanks inside):
+     node      #id | $id | T | oi<n> | ol<n> | N(node,node) | F(key,vid)
+     key       <hex> | <hex>/<bits>
+     terminal  L:<hex>:<vid> | P:<hex>/<bits>
+     op        <key>:w<vid> | <key>:d
+   Commands and replies are documented at each case of [handle]. *)
+
+open State
+open Result
+
+let fail fmt = Printf.ksprintf failwith fmt
+
+(* ---- node expressions ---- *)
+let parse_nref (s : string) : CoreGlue.nref =
+  let n = String.length s in
+  let pos = ref 0 in
+  let peek () = if !pos < n then s.[!pos] else '\000' in
+  let adv () = incr pos in
+  let expect c = if peek () <> c then fail "node syntax %s at %d" s !pos else adv () in
+  let number () =
+    let st = !pos in
+    while !pos < n && s.[!pos] >= '0' && s.[!pos] <= '9' do adv () done;
+    if !pos = st then fail "node syntax %s: number expected at %d" s st;
+    int_of_string (String.sub s st (!pos - st))
+  in
+  let until c =
+    let st = !pos in
+    while !pos < n && s.[!pos] <> c do adv () done;
+    String.sub s st (!pos - st)
+  in
+  let rec node () =
+    match peek () with
+    | '#' -> adv (); CoreGlue.RId (false, n_of_int (number ()))
+    | '$' -> adv (); CoreGlue.RId (true, n_of_int (number ()))
+    | 'T' -> adv (); CoreGlue.RT
+    | 'o' ->
+        adv ();
+        let k = match peek () with 'l' -> Hash.KLeaf | 'i' -> Hash.KInt | _ -> fail "opaque kind in %s" s in
+        adv ();
+        CoreGlue.RO (k, n_of_int (number ()))
+    | 'N' ->
+        adv (); expect '(';
+        let a = node () in
+        expect ',';
+        let b = node () in
+        expect ')';
+        CoreGlue.RN (a, b)
+    | 'F' ->
+        adv (); expect '(';
+        let k = until ',' in
+        expect ',';
+        let v = number () in
+        expect ')';
+        CoreGlue.RF (key_of_string k, n_of_int v)
+    | _ -> fail "node syntax %s at %d" s !pos
+  in
+  let r = node () in
+  if !pos <> n then fail "node syntax %s: trailing characters" s;
+  r
+
+let node_of_string (s : string) : Hash.fnode =
+  match CoreGlue.resolve atries.(0) atries.(1) (parse_nref s) with
+  | Some f -> f
+  | None -> fail "unknown node reference %s" s
+
+let obj_of_node (s : string) : Hash.node = Obj.repr (node_of_string s)
+
+(* ---- terminals, ops ---- *)
+let split_colon s = String.split_on_char ':' s
+
+let terminal_of_string (s : string) : Trie.terminal =
+  match split_colon s with
+  | [ "L"; k; v ] -> Trie.TLeaf (key_of_string k, n_of_int (int_of_string v))
+  | [ "P"; p ] -> Trie.TTerm (key_of_string p)
+  | _ -> fail "terminal syntax %s" s
+
+let string_of_terminal = function
+  | Trie.TLeaf (k, v) -> Printf.sprintf "L:%s:%d" (string_of_key k) (int_of_n v)
+  | Trie.TTerm p ->
+      let s = string_of_key p in
+      if String.contains s '/' then "P:" ^ s else Printf.sprintf "P:%s/256" s
+
+let op_of_string (s : string) : bool list * BinNums.coq_N option =
+  match split_colon s with
+  | [ k; "d" ] -> (key_of_string k, None)
+  | [ k; w ] when String.length w > 1 && w.[0] = 'w' ->
+      (key_of_string k, Some (n_of_int (int_of_string (String.sub w 1 (String.length w - 1)))))
+  | _ -> fail "op syntax %s" s
+
+let kv_of_string (s : string) : bool list * BinNums.coq_N =
+  match split_colon s with
+  | [ k; v ] -> (key_of_string k, n_of_int (int_of_string v))
+  | _ -> fail "key:value syntax %s" s
+
+(* split a token list at every occurrence of [sep] *)
+let split_at (sep : string) (toks : string list) : string list list =
+  let rec go cur acc = function
+    | [] -> Stdlib.List.rev (Stdlib.List.rev cur :: acc)
+    | x :: r when x = sep -> go [] (Stdlib.List.rev cur :: acc) r
+    | x :: r -> go (x :: cur) acc r
+  in
+  go [] [] toks
+
+(* ---- printing ---- *)
+let add_rpn (buf : Buffer.t) (n : Hash.fnode) =
+  let toks = Emit.rpn n [] in
+  Stdlib.List.iter
+    (fun t ->
+      Buffer.add_char buf ' ';
+      match t with
+      | Emit.TkT -> Buffer.add_char buf 'T'
+      | Emit.TkI -> Buffer.add_char buf 'I'
+      | Emit.TkL (k, v) -> Buffer.add_string buf (Printf.sprintf "L:%s:%d" (string_of_key k) (int_of_n v))
+      | Emit.TkO (k, i) ->
+          Buffer.add_string buf
+            (Printf.sprintf "O%c:%d" (match k with Hash.KLeaf -> 'l' | Hash.KInt -> 'i' | Hash.KTerm -> 't') (int_of_n i)))
+    toks
+
+let rpn_string (n : Hash.fnode) = let b = Buffer.create 256 in add_rpn b n; Buffer.contents b
+
+let bool_res (r : (_, bool) res) =
+  match r with Ok true -> "t" | Ok false -> "f" | Err _ -> "oos" | Panic -> "panic"
+
+let string_of_verify_err = function
+  | PathProof.TooManySiblings -> "TooManySiblings"
+  | PathProof.RootMismatch -> "RootMismatch"
+  | PathProof.TerminalOutOfPath -> "TerminalOutOfPath"
+
+let string_of_vu_err = function
+  | VerifyUpdate.PathsOutOfOrder -> "PathsOutOfOrder"
+  | VerifyUpdate.OpsOutOfOrder -> "OpsOutOfOrder"
+  | VerifyUpdate.OpOutOfScope -> "OpOutOfScope"
+  | VerifyUpdate.PathWithoutOps -> "PathWithoutOps"
+  | VerifyUpdate.VuRootMismatch -> "RootMismatch"
+
+let string_of_mv_err = function
+  | MultiProof.MultiRootMismatch -> "RootMismatch"
+  | MultiProof.MultiPathsOutOfOrder -> "PathsOutOfOrder"
+  | MultiProof.MultiTooManySiblings -> "TooManySiblings"
+  | MultiProof.MultiMalformed -> "Malformed"
+
+let string_of_mvu_err = function
+  | MultiUpdate.MultiOpsOutOfOrder -> "OpsOutOfOrder"
+  | MultiUpdate.MultiOpOutOfScope -> "OpOutOfScope"
+  | MultiUpdate.MultiUpdateRootMismatch -> "RootMismatch"
+  | MultiUpdate.MultiPathPrefixOfAnother -> "PathPrefixOfAnother"
+
+let node_res (err : 'e -> string) (r : ('e, Hash.fnode) res) =
+  match r with
+  | Ok n -> "ok" ^ rpn_string n
+  | Err e -> "err:" ^ err e
+  | Panic -> "panic"
+
+let table_string (at : Emit.atrie) =
+  let b = Buffer.create 4096 in
+  Stdlib.List.iter
+    (function
+      | Emit.EL (i, k, v) -> Buffer.add_string b (Printf.sprintf "L %d %s %d\n" (int_of_n i) (string_of_key k) (int_of_n v))
+      | Emit.EI (i, l, r) -> Buffer.add_string b (Printf.sprintf "I %d %d %d\n" (int_of_n i) (int_of_n l) (int_of_n r)))
+    (Emit.atable at []);
+  Buffer.add_string b (Printf.sprintf "root %d\nend" (int_of_n (Emit.aid at)));
+  Buffer.contents b
+
+let path_proof_of (term : string) (sibs : string list) : PathProof.path_proof =
+  { PathProof.pp_terminal = terminal_of_string term; pp_siblings = Stdlib.List.map obj_of_node sibs }
+
+(* ---- commands ---- *)
+let handle (toks : string list) : string option =
+  match toks with
+  (* setkv <slot> <key>:<vid> ...      (keys ascending)  ->  ok *)
+  | "setkv" :: slot :: entries ->
+      let v = Stdlib.List.map kv_of_string entries in
+      (match slot with
+       | "0" -> !set_view_hook v
+       | "1" -> store 1 v (CoreGlue.annotate_view v)
+       | _ -> fail "slot");
+      Some "ok"
+  (* tableb  ->  node table of slot 1 (same format as the driver's "table") *)
+  | [ "tableb" ] -> Some (table_string atries.(1))
+  (* applyroot <op> ...  ->  ok <rpn of the root of the current view with the changes applied> *)
+  | "applyroot" :: ops ->
+      let w = Stdlib.List.map op_of_string ops in
+      Some ("ok" ^ rpn_string (CoreGlue.apply_root views.(0) w))
+  (* group <op> ...  ->  ok <first key>:<path bits>:<number of ops> ...   (Witness.group) *)
+  | "group" :: ops ->
+      let w = Stdlib.List.map op_of_string ops in
+      let gs = CoreGlue.group_run views.(0) w in
+      Some
+        ("ok"
+        ^ String.concat ""
+            (Stdlib.List.map
+               (fun (g : VerifyUpdate.path_update) ->
+                 match g.VerifyUpdate.pu_ops with
+                 | (k, _) :: _ ->
+                     Printf.sprintf " %s:%d:%d" (string_of_key k)
+                       (Stdlib.List.length g.VerifyUpdate.pu_inner.PathProof.vp_path)
+                       (Stdlib.List.length g.VerifyUpdate.pu_ops)
+                 | [] -> " -:0:0")
+               gs))
+  (* vugroup <op> ...  ->  verify_update over Witness.group:  ok <rpn> | err:<E> | panic *)
+  | "vugroup" :: ops ->
+      let w = Stdlib.List.map op_of_string ops in
+      Some (node_res string_of_vu_err (CoreGlue.vu_group_run views.(0) w))
+  (* pp <terminal> <key_path> <root> ; <sibling> ... ; <query> ...
+       query: v:<key>:<vid> (confirm_value) | n:<key> (confirm_nonexistence)
+     ->  ok:<proven path> | r ...      r = t | f | oos | panic
+         err:<E> |      panic | *)
+  | "pp" :: rest -> (
+      match split_at ";" rest with
+      | [ [ term; key; root ]; sibs; queries ] -> (
+          let p = path_proof_of term sibs in
+          match CoreGlue.pp_verify p (key_of_string key) (node_of_string root) with
+          | Ok vp ->
+              let rs =
+                Stdlib.List.map
+                  (fun q ->
+                    match split_colon q with
+                    | [ "v"; k; v ] ->
+                        bool_res (CoreGlue.pp_confirm_value vp (key_of_string k) (n_of_int (int_of_string v)))
+                    | [ "n"; k ] -> bool_res (CoreGlue.pp_confirm_nonexistence vp (key_of_string k))
+                    | _ -> fail "query syntax %s" q)
+                  queries
+              in
+              Some (Printf.sprintf "ok:%s | %s" (string_of_key vp.PathProof.vp_path) (String.concat " " rs))
+          | Err e -> Some ("err:" ^ string_of_verify_err e ^ " |")
+          | Panic -> Some "panic |")
+      | _ -> fail "pp syntax")
+  (* vu <prev_root> ; <terminal> <key_path> <root> , <sibling> ... , <op> ... ; ...
+     ->  pathfail:<i>:<class> | ok <rpn> | err:<E> | panic *)
+  | "vu" :: prev :: rest ->
+      let groups = match rest with ";" :: r -> split_at ";" r | [] -> [] | _ -> fail "vu syntax" in
+      let groups = Stdlib.List.filter (fun g -> g <> []) groups in
+      let paths =
+        Stdlib.List.map
+          (fun g ->
+            match split_at "," g with
+            | [ [ term; key; root ]; sibs; ops ] ->
+                (((path_proof_of term sibs, key_of_string key), node_of_string root), Stdlib.List.map op_of_string ops)
+            | _ -> fail "vu path syntax")
+          groups
+      in
+      Some
+        (match CoreGlue.vu_run (node_of_string prev) paths with
+         | CoreGlue.VuPathFailed (i, r) ->
+             Printf.sprintf "pathfail:%d:%s" (int_of_nat i)
+               (match r with Ok () -> "ok" | Err e -> "err:" ^ string_of_verify_err e | Panic -> "panic")
+         | CoreGlue.VuDone r -> node_res string_of_vu_err r)
+  (* bt <skip> <key>:<vid> ...  ->  ok <rpn> | panic *)
+  | "bt" :: skip :: entries ->
+      let ops = Stdlib.List.map kv_of_string entries in
+      Some
+        (match CoreGlue.bt_run (nat_of_int (int_of_string skip)) ops with
+         | Ok n -> "ok" ^ rpn_string n
+         | Err _ -> "err"
+         | Panic -> "panic")
+  (* fpp <terminal> <number of siblings> ...        (siblings are numbered 0.. in input order)
+     ->  ok <terminal>@<depth> ... ; <sibling index> ...  |  panic *)
+  | "fpp" :: rest ->
+      let next = ref 0 in
+      let rec proofs = function
+        | term :: n :: r ->
+            let n = int_of_string n in
+            let sibs = Stdlib.List.init n (fun i -> Obj.repr (n_of_int (!next + i))) in
+            next := !next + n;
+            { PathProof.pp_terminal = terminal_of_string term; pp_siblings = sibs } :: proofs r
+        | [] -> []
+        | _ -> fail "fpp syntax"
+      in
+      let ps = proofs rest in
+      Some
+        (match CoreGlue.fpp_run ps with
+         | Ok m ->
+             "ok "
+             ^ String.concat " "
+                 (Stdlib.List.map
+                    (fun (p : MultiProof.multi_path_proof) ->
+                      Printf.sprintf "%s@%d" (string_of_terminal p.MultiProof.mpp_terminal) (int_of_nat p.MultiProof.mpp_depth))
+                    m.MultiProof.mp_paths)
+             ^ " ; "
+             ^ String.concat " "
+                 (Stdlib.List.map (fun i -> string_of_int (int_of_n (Obj.obj i))) m.MultiProof.mp_siblings)
+         | Err _ -> "err"
+         | Panic -> "panic")
+  (* multi <root|self> ; <terminal>@<depth> ... ; <sibling> ... ; <query> ... ; <op> ... ; <op> ... ...
+       query: i:<key> | v:<key>:<vid> | n:<key> | vi:<key>:<vid>:<index> | ni:<key>:<index>
+       every op section after the queries is one write set for verify_update
+     ->  root <rpn> | <class> | inner d:s:e ... | bis d:s:e ... | q r ... | u <result> | u <result> ...
+         class = ok | err:<E> | panic; only "root ... | class" when verification fails;
+         "root -" unless self was asked for *)
+  | "multi" :: rest -> (
+      match split_at ";" rest with
+      | [ root ] :: paths :: sibs :: queries :: updates ->
+          let paths =
+            Stdlib.List.map
+              (fun s ->
+                match String.rindex_opt s '@' with
+                | Some i ->
+                    { MultiProof.mpp_terminal = terminal_of_string (String.sub s 0 i);
+                      mpp_depth = nat_of_int (int_of_string (String.sub s (i + 1) (String.length s - i - 1))) }
+                | None -> fail "multi path syntax %s" s)
+              paths
+          in
+          let m = { MultiProof.mp_paths = paths; mp_siblings = Stdlib.List.map obj_of_node sibs } in
+          let b = Buffer.create 1024 in
+          let root =
+            if root = "self" then (
+              let r : Hash.fnode = CoreGlue.multi_self_root m in
+              Buffer.add_string b "root";
+              add_rpn b r;
+              r)
+            else (Buffer.add_string b "root -"; node_of_string root)
+          in
+          (match CoreGlue.multi_verify m root with
+           | Err e -> Buffer.add_string b (" | err:" ^ string_of_mv_err e)
+           | Panic -> Buffer.add_string b " | panic"
+           | Ok v ->
+               Buffer.add_string b " | ok | inner";
+               Stdlib.List.iter
+                 (fun (p : MultiProof.verified_multi_path) ->
+                   Buffer.add_string b
+                     (Printf.sprintf " %d:%d:%d" (int_of_nat p.MultiProof.vm_depth)
+                        (int_of_nat p.MultiProof.vm_unique_siblings_start)
+                        (int_of_nat p.MultiProof.vm_unique_siblings_end)))
+                 v.MultiProof.vmp_inner;
+               Buffer.add_string b " | bis";
+               Stdlib.List.iter
+                 (fun (p : MultiProof.verified_bisection) ->
+                   Buffer.add_string b
+                     (Printf.sprintf " %d:%d:%d" (int_of_nat p.MultiProof.vb_start_depth)
+                        (int_of_nat p.MultiProof.vb_common_siblings_start)
+                        (int_of_nat p.MultiProof.vb_common_siblings_end)))
+                 v.MultiProof.vmp_bisections;
+               Buffer.add_string b " | q";
+               Stdlib.List.iter
+                 (fun q ->
+                   let vid s = n_of_int (int_of_string s) in
+                   let idx s = nat_of_int (int_of_string s) in
+                   let r =
+                     match split_colon q with
+                     | [ "i"; k ] -> (
+                         match CoreGlue.multi_find_index_for v (key_of_string k) with
+                         | Ok i -> Printf.sprintf "ok:%d" (int_of_nat i)
+                         | Err _ -> "oos"
+                         | Panic -> "panic")
+                     | [ "v"; k; x ] -> bool_res (CoreGlue.multi_confirm_value v (key_of_string k) (vid x))
+                     | [ "n"; k ] -> bool_res (CoreGlue.multi_confirm_nonexistence v (key_of_string k))
+                     | [ "vi"; k; x; i ] ->
+                         bool_res (CoreGlue.multi_confirm_value_with_index v (key_of_string k) (vid x) (idx i))
+                     | [ "ni"; k; i ] ->
+                         bool_res (CoreGlue.multi_confirm_nonexistence_with_index v (key_of_string k) (idx i))
+                     | _ -> fail "multi query syntax %s" q
+                   in
+                   Buffer.add_char b ' ';
+                   Buffer.add_string b r)
+                 queries;
+               Stdlib.List.iter
+                 (fun ops ->
+                   let w = Stdlib.List.map op_of_string ops in
+                   Buffer.add_string b " | u ";
+                   Buffer.add_string b
+                     (node_res string_of_mvu_err
+                        (match CoreGlue.multi_verify_update v w with
+                         | Ok n -> Ok (Obj.obj n : Hash.fnode)
+                         | Err e -> Err e
+                         | Panic -> Panic)))
+                 updates);
+          Some (Buffer.contents b)
+      | _ -> fail "multi syntax")
+  | _ -> None
